@@ -31,7 +31,7 @@ func ExtendedPatternMatcher(pat string, mode pattern.Mode) (func(string) bool, e
 		if !ok {
 			return nil, err
 		}
-		return extNegatedMatcher(pat, negErr.Groups)
+		return extNegatedMatcher(pat, negErr.Groups, mode)
 	}
 	rx := regexp.MustCompile(expr)
 	return rx.MatchString, nil
@@ -39,7 +39,7 @@ func ExtendedPatternMatcher(pat string, mode pattern.Mode) (func(string) bool, e
 
 // extNegatedMatcher handles !(pattern-list) extglob negation.
 // Only a single !(...) group with fixed-string prefix and suffix is supported.
-func extNegatedMatcher(pat string, groups []pattern.NegExtGlobGroup) (func(string) bool, error) {
+func extNegatedMatcher(pat string, groups []pattern.NegExtGlobGroup, mode pattern.Mode) (func(string) bool, error) {
 	if len(groups) != 1 {
 		return nil, fmt.Errorf("multiple extglob !(...) groups are not supported yet")
 	}
@@ -53,17 +53,24 @@ func extNegatedMatcher(pat string, groups []pattern.NegExtGlobGroup) (func(strin
 
 	// Use @(inner) to compile the pattern list, then negate the match.
 	inner := pat[g.Start+len("!(") : g.End-len(")")]
-	expr, err := pattern.Regexp("@("+inner+")", pattern.EntireString|pattern.ExtendedOperators)
+	noCase := mode&pattern.NoGlobCase != 0
+	expr, err := pattern.Regexp("@("+inner+")", pattern.EntireString|pattern.ExtendedOperators|mode&pattern.NoGlobCase)
 	if err != nil {
 		return nil, err
 	}
 	rx := regexp.MustCompile(expr)
+	hasAffix := func(has func(s, affix string) bool, name, affix string) bool {
+		if noCase {
+			return has(strings.ToLower(name), strings.ToLower(affix))
+		}
+		return has(name, affix)
+	}
 
 	return func(name string) bool {
-		if !strings.HasPrefix(name, prefix) {
+		if !hasAffix(strings.HasPrefix, name, prefix) {
 			return false
 		}
-		if !strings.HasSuffix(name, suffix) {
+		if !hasAffix(strings.HasSuffix, name, suffix) {
 			return false
 		}
 		end := len(name) - len(suffix)
